@@ -192,6 +192,32 @@ func (p dprog) apply(root tally.Scope) []tally.Scope {
 	return out
 }
 
+// applyReusing is apply for a caller that owns one map object and refills it
+// for every Tagged call (the library must have copied what it needs).
+func (p dprog) applyReusing(root tally.Scope, buf map[string]string) []tally.Scope {
+	out := []tally.Scope{root}
+	cur := root
+	for _, st := range p {
+		if st.IsTag {
+			for k := range buf {
+				delete(buf, k)
+			}
+			for k, v := range st.Tags {
+				buf[k] = v
+			}
+			cur = cur.Tagged(buf)
+		} else {
+			cur = cur.SubScope(st.Sub)
+		}
+		out = append(out, cur)
+	}
+	for k := range buf {
+		delete(buf, k)
+	}
+	buf["left-over-in-the-callers-map"] = "x"
+	return out
+}
+
 // collides reports whether two distinct identities of the list share a
 // canonical key (only possible with delimiter characters inside strings).
 func collides(ids []ident) bool {
